@@ -46,7 +46,7 @@ THEOREMS = [
     # row lists, BranchFeatures.get_length, and the sum of the translated branch lengths = the translated Tree.length
     "RefineNf2.assign_depth_eq", "RefineNf2.spec_depth", "RefineNf2.branch_order_refines", "RefineNf2.furcation_nodes_refines",
     "RefineNf2.tip_nodes_refines", "RefineNf2.subset_count_refines", "RefineNf2.subset_radial_refines", "RefineNf2.path_length_refines",
-    "RefineNf2.bf_length_refines",
+    "RefineNf2.bf_length_refines", "RefineNf2.calc_angle_refines", "C10.generated_calc_angle",
     "C10.generated_nf_branch_order", "C10.generated_nf_branch_order_tree", "C10.generated_furcation_nodes", "C10.generated_tip_nodes",
     "C10.generated_furcation_count", "C10.generated_tip_count", "C10.generated_furcation_radial", "C10.generated_tip_radial",
     "C10.generated_path_length", "C10.generated_bf_length", "C10.generated_sum_branch_lengths_eq_tree_length",
